@@ -9,7 +9,6 @@ ID = "C03"
 QUICK_N = 2400
 THOROUGH_N = 40000
 SHARD = 200
-COQ_PRELUDE = "From MV Require Import Model.HttpStream.\n"
 RULE = ("A case is a schedule of operations on one client connection of a real HttpLayer(regular mode) driven by "
         "harness/lib/sansio.py: client/server data segments made of HTTP/1 tokens (heads, body pieces, chunk ends, malformed "
         "heads / chunk headers, partial heads), peer closes, and completions of deferred hooks / connection attempts; plus an "
@@ -706,3 +705,94 @@ def gen(rng, n, tier):
         tries += 1
         add(gen_structured(rng) if rng.chance(0.7) else gen_soup(rng))
     return out
+
+
+# ---------------------------------------------------------------- Coq terms
+COQ_PRELUDE = "From MV Require Import Model.HttpStream Model.HttpSys.\n"
+_HOOK = {"requestheaders": "HkReqHeaders", "request": "HkRequest", "responseheaders": "HkRespHeaders",
+         "response": "HkResponse", "error": "HkError", "http_connect": "HkConnect"}
+_ACT = {"pass": "APass", "kill": "AKill", "resp": "AResp", "stream": "AStream", "sresp": "ASResp"}
+
+
+def _copt(v):
+    return "None" if v is None else "(Some %s)" % cN(v)
+
+
+def _fr(f):
+    if f[0] == "cl":
+        return "(HLen %s)" % cN(f[1])
+    if f[0] == "ch":
+        return "HChunked"
+    return "HNone"
+
+
+def _head(t):
+    if "st" in t:
+        return "(mkHead %s MGet %s 0%%N true %s false %s %s)" % (
+            cbytes(resp_head(t)), _fr(t["f"]), cbool(not t.get("inv")), cbool(bool(t.get("close"))), cN(t["st"]))
+    m = {"GET": "MGet", "POST": "MGet", "HEAD": "MHead", "CONNECT": "MConnect"}[t["m"]]
+    bad = t["t"] == "HR"
+    return "(mkHead %s %s %s %s %s %s %s %s 0%%N)" % (
+        cbytes(req_head(t)[1]), m, "HChunked" if bad else _fr(t["f"]), cN(t.get("host", 0)),
+        cbool(t.get("form") != "nohost"), cbool(not (t.get("inv") or bad)), cbool(bool(t.get("exp"))),
+        cbool(bool(t.get("close") or t.get("v10"))))
+
+
+def _tok(t):
+    k = t["t"]
+    if k == "H":
+        return "(TH %s)" % _head(t)
+    if k == "HR":
+        return "(THR %s)" % _head(t)
+    if k == "D":
+        return "(TD %s)" % cbytes(bytes.fromhex(t["d"]))
+    return {"HB": "THB", "P": "TP", "E": "TE", "X": "TX"}[k]
+
+
+def _op(op):
+    if op[0] == "c":
+        return "(ODataC %s)" % clist([_tok(t) for t in op[1]], "tok")
+    if op[0] == "s":
+        return "(ODataS %s %s)" % (cN(op[1]), clist([_tok(t) for t in op[2]], "tok"))
+    if op[0] == "cc":
+        return "OCloseC"
+    if op[0] == "sc":
+        return "(OCloseS %s)" % cN(op[1])
+    return "OResume"
+
+
+def _ocmd(t):
+    if t[0] == "hook":
+        return "(OHook %s %s)" % (_HOOK[t[1]], cN(t[2]))
+    if t[0] == "open":
+        return "(OOpen %s)" % cN(t[1])
+    if t[0] == "send":
+        return "(OSend %s %s)" % (cN(t[1]), cbytes(bytes.fromhex(t[2])))
+    if t[0] == "errpage":
+        return "(OErrPage %s %s)" % (cN(t[1]), cN(t[2]))
+    if t[0] == "close":
+        return "(OClose %s %s)" % (cN(t[1]), cbool(t[2]))
+    if t[0] == "crash":
+        return "OCrash"
+    raise ValueError(t)
+
+
+def coq_case(case, obs):
+    o = case.get("opts", {})
+    opts = "(mkOpts %s %s %s %s)" % (_copt(o.get("bsl")), _copt(o.get("slb")), cbool(bool(o.get("val", True))), cbool(bool(o.get("ssb", False))))
+    pol = []
+    for key, a in sorted(case.get("pol", {}).items()):
+        fo, h = key.split(":")
+        pol.append("(%s, %s, %s)" % (cN(int(fo)), _HOOK[h], _ACT[a]))
+    dfr = []
+    for key in case.get("defer", []):
+        fo, h = key.split(":")
+        dfr.append("(%s, %s)" % (cN(int(fo)), _HOOK[h]))
+    conn = ["(%s, %s)" % (cN(int(k)), {"fail": "CFail", "defer": "CDefer", "ok": "COk"}[v]) for k, v in sorted(case.get("conn", {}).items())]
+    flows = ["(mkFlowObs %s %s %s %s %s)" % tuple(cbool(f[k]) for k in ("live", "resp", "err", "connect", "up101")) for f in obs["flows"]]
+    conns = ["(%s, %s)" % (cbool(r), cbool(w)) for r, w in obs["conns"]]
+    return "(Run %s %s %s %s %s %s %s %s %s %s %s)" % (
+        opts, clist(pol, "(N * hook * act)%type"), clist(dfr, "(N * hook)%type"), clist(conn, "(N * connres)%type"),
+        clist([_op(x) for x in case["sched"]], "op"), clist([_ocmd(t) for t in obs["trace"]], "ocmd"),
+        clist(flows, "flowobs"), clist(conns, "(bool * bool)%type"),
+        cbool(bool(obs["crash"])), cbool(obs["tunnel"]), cbool(obs["settled"]))
